@@ -13,6 +13,7 @@ import (
 	"github.com/ethereum/go-ethereum/common"
 	"github.com/gauss-project/aurorafs/pkg/crypto"
 	chequePkg "github.com/gauss-project/aurorafs/pkg/settlement/traffic/cheque"
+	"github.com/gauss-project/aurorafs/pkg/storage"
 	"verif/harness/internal/obs"
 	"verif/harness/internal/trafficx"
 )
@@ -112,6 +113,7 @@ type world struct {
 	unreg   *trafficx.Party   // overlay never registered
 	foreign *trafficx.Party   // key never registered, delivers nothing itself
 	node    *trafficx.Node
+	store   storage.StateStorer
 	rec     *recCS
 	// model
 	last    map[common.Address]*big.Int // highest accepted payout per stated issuer
@@ -148,6 +150,7 @@ func newWorld(t *testing.T, rng *rand.Rand, nreg int) *world {
 	if err != nil {
 		t.Fatal(err)
 	}
+	w.store = st
 	chain := trafficx.NewChain()
 	w.node = trafficx.NewNode(w.self, st, chain, trafficx.Options{WrapCS: func(cs chequePkg.ChequeStore) chequePkg.ChequeStore {
 		w.rec = &recCS{ChequeStore: cs}
@@ -580,6 +583,7 @@ func TestChequeHistories(t *testing.T) {
 		if i < 2 {
 			run.Sample(map[string]interface{}{"history": hist})
 		}
+		w.store.Close()
 		c.End(fmt.Sprintf("kinds=%s/accepted=%d", strings.Join(ks, ","), accepted), accepted > 0 && len(kinds) >= 4)
 	}
 }
@@ -625,6 +629,7 @@ func TestChequeStoreDirect(t *testing.T) {
 			ks = append(ks, k)
 		}
 		sort.Strings(ks)
+		w.store.Close()
 		c.End(fmt.Sprintf("store/kinds=%s/accepted=%d", strings.Join(ks, ","), accepted), accepted > 0 && len(kinds) >= 4)
 	}
 }
